@@ -445,7 +445,6 @@ M('C04', 'seipd-split-header-only', PK, "        _expected_mdcbytes = b'\\xd3\\x
   "        if bytes(pt[-22:-20]) != b'\\xd3\\x14':\n            raise PGPDecryptionError(\"Decryption failed\")\n", 'C04.1')
 M('C04', 'seipd-split-digest-only', PK, "        _expected_mdcbytes = b'\\xd3\\x14' + hashlib.new('SHA1', pt[:-20]).digest()\n        if not constant_time.bytes_eq(bytes(pt[-22:]), _expected_mdcbytes):\n            raise PGPDecryptionError(\"Decryption failed\")  # pragma: no cover\n",
   "        if not constant_time.bytes_eq(bytes(pt[-20:]), hashlib.new('SHA1', pt[:-20]).digest()):\n            raise PGPDecryptionError(\"Decryption failed\")\n", 'C04.1')
-M('C04', 'seipd-mdc-iv-given', PK, "        pt = _decrypt(bytes(self.ct), bytes(key), alg)\n\n        # do the MDC checks", "        pt = _decrypt(bytes(self.ct), bytes(key), alg, bytes(self.ct[:alg.block_size // 8]))\n\n        # do the MDC checks", 'C04.1')
 M('C04', 'ivcheck-compares-self', PK, "        if not constant_time.bytes_eq(iv[-2:], ivl2):\n            raise PGPDecryptionError(\"Decryption failed\")  # pragma: no cover\n\n        return pt\n", "        if not constant_time.bytes_eq(ivl2, ivl2):\n            raise PGPDecryptionError(\"Decryption failed\")  # pragma: no cover\n\n        return pt\n", 'C04.2')
 
 # ---------------------------------------------------------------- C04.3
@@ -472,15 +471,6 @@ T('C04', 'twin-pkesk-nodel', PK, C04_PKSK, """        cipher = SymmetricKeyAlgor
         return cipher, sessionkey
 """)
 T('C04', 'twin-pkesk-sum-bytearray', PK, "        if not sum(symkey) % 65536 == checksum:  # pragma: no cover", "        if checksum != sum(bytearray(symkey)) % 65536:  # pragma: no cover")
-M('C04', 'pkesk-checksum-includes-alg', PK, C04_PKSK, """        cipher = SymmetricKeyAlgorithm(m[0])
-        klen = cipher.key_size // 8
-        sessionkey = m[1:1 + klen]
-        expected = int.from_bytes(m[1 + klen:3 + klen], 'big')
-        if (sum(m[:1 + klen]) & 0xFFFF) != expected:
-            raise PGPDecryptionError("{:s} decryption failed".format(self.pkalg.name))
-        return cipher, sessionkey
-""", 'C04.3')
-M('C04', 'pkesk-checksum-one-octet', PK, "        checksum = self.bytes_to_int(m[:2])\n        del m[:2]\n\n        if not sum(symkey) % 65536 == checksum:", "        checksum = self.bytes_to_int(m[:1])\n        del m[:2]\n\n        if not sum(symkey) % 65536 == checksum:", 'C04.3')
 M('C04', 'pkesk-returns-unchecked-key', PK, "        return (symalg, symkey)\n\n    def encrypt_sk(self, pk, symalg, symkey):", "        return (symalg, symkey + m)\n\n    def encrypt_sk(self, pk, symalg, symkey):", 'C04.3')
 
 # ---------------------------------------------------------------- C04.4
@@ -510,21 +500,8 @@ T('C04', 'twin-keyblob-nested', FL, C04_KB, """        usage = self.s2k.usage
 """)
 T('C04', 'twin-keyblob-rename-kw', FL, "        sessionkey = self.s2k.derive_key(passphrase)\n        del passphrase\n\n        # attempt to decrypt this key\n        pt = _decrypt(bytes(self.encbytes), bytes(sessionkey), self.s2k.encalg, bytes(self.s2k.iv))",
   "        kek = self.s2k.derive_key(passphrase)\n        del passphrase\n\n        # attempt to decrypt this key\n        pt = _decrypt(bytes(self.encbytes), bytes(kek), alg=self.s2k.encalg, iv=bytes(self.s2k.iv))")
-M('C04', 'keyblob-nested-wrong-arm', FL, C04_KB, """        usage = self.s2k.usage
-        if usage == 255:
-            body, digest = pt[:-20], pt[-20:]
-            if digest != hashlib.sha1(body).digest():
-                raise PGPDecryptionError("Passphrase was incorrect!")
-
-        elif usage == 254:
-            if self.bytes_to_int(pt[-2:]) != sum(bytearray(pt[:-2])) % 65536:
-                raise PGPDecryptionError("Passphrase was incorrect!")
-
-        return bytearray(pt)
-""", 'C04.4')
 M('C04', 'keyblob-sum-short-range', FL, "(sum(bytearray(pt[:-2])) % 65536):  # pragma: no cover", "(sum(bytearray(pt[:-4])) % 65536):  # pragma: no cover", 'C04.4')
 M('C04', 'keyblob-sha1-or', FL, "        if self.s2k.usage == 254 and not pt[-20:] == hashlib.new('sha1', pt[:-20]).digest():", "        if self.s2k.usage == 254 and not (pt[-20:] == hashlib.new('sha1', pt[:-20]).digest() or len(pt) > 20):", 'C04.4')
-M('C04', 'keyblob-iv-zero', FL, "self.s2k.encalg, bytes(self.s2k.iv))\n\n        # check the hash", "self.s2k.encalg, bytes(self.s2k.encalg.block_size // 8))\n\n        # check the hash", 'C04.4')
 
 # ---------------------------------------------------------------- C04.7
 C04_ECD = """        padder = PKCS7(64).unpadder()
@@ -544,12 +521,6 @@ M('C04', 'ecdh-lenient-padding', FL, C04_ECD, """        padder = PKCS7(64).unpa
             return padder.update(_m) + padder.finalize()
         except ValueError:
             return _m
-""", 'C04.7')
-M('C04', 'ecdh-two-unpadders', FL, C04_ECD, """        return PKCS7(64).unpadder().update(_m) + PKCS7(8).unpadder().finalize()
-""", 'C04.7')
-M('C04', 'ecdh-unwrap-swapped', FL, "        _m = aes_key_unwrap(z, self.c, default_backend())", "        _m = aes_key_unwrap(wrapped_key=z, wrapping_key=self.c, backend=default_backend())", 'C04.7')
-M('C04', 'ecdh-finalize-first', FL, C04_ECD, """        padder = PKCS7(64).unpadder()
-        return padder.finalize() + padder.update(_m)
 """, 'C04.7')
 C04_MSG_LOOP = """        for skesk in iter(sk for sk in self._sessionkeys if isinstance(sk, SKESessionKey)):
             try:
@@ -707,13 +678,10 @@ M('C04', 'msg-found-flag-early', PGP, C04_MSG_LOOP, """        found = False
         return decmsg
 """, 'C04.5')
 M('C04', 'msg-filter-dropped', PGP, "        for skesk in iter(sk for sk in self._sessionkeys if isinstance(sk, SKESessionKey)):", "        for skesk in iter(sk for sk in self._sessionkeys):", 'C04.5')
-M('C04', 'msg-filter-wrong-class', PGP, "        for skesk in iter(sk for sk in self._sessionkeys if isinstance(sk, SKESessionKey)):", "        for skesk in iter(sk for sk in self._sessionkeys if isinstance(sk, PKESessionKey)):", 'C04.5')
 M('C04', 'msg-parse-error-swallowed', PGP, "                decmsg.parse(self.message.decrypt(key, symalg))\n\n            except (TypeError", "                try:\n                    decmsg.parse(self.message.decrypt(key, symalg))\n                except PGPDecryptionError:\n                    pass\n\n            except (TypeError", 'C04.5')
 M('C04', 'msg-handler-returns-self', PGP, "            except (TypeError, ValueError, NotImplementedError, PGPDecryptionError):\n                continue\n\n            else:\n                del passphrase", "            except (TypeError, ValueError, NotImplementedError):\n                continue\n\n            except PGPDecryptionError:\n                return self\n\n            else:\n                del passphrase", 'C04.5')
 M('C04', 'msg-precondition-dropped', PGP, "        if not self.is_encrypted:\n            raise PGPError(\"This message is not encrypted!\")\n\n        for skesk in iter(", "        for skesk in iter(", 'C04.5')
 M('C04', 'msg-precondition-returns-self', PGP, "        if not self.is_encrypted:\n            raise PGPError(\"This message is not encrypted!\")\n\n        for skesk in iter(", "        if not self.is_encrypted:\n            return self\n\n        for skesk in iter(", 'C04.5')
-M('C04', 'msg-secret-not-passphrase', PGP, "                symalg, key = skesk.decrypt_sk(passphrase)", "                symalg, key = skesk.decrypt_sk(b'')", 'C04.5')
-M('C04', 'msg-parse-raw-container', PGP, "                decmsg.parse(self.message.decrypt(key, symalg))\n\n            except (TypeError", "                self.message.decrypt(key, symalg)\n                decmsg.parse(self.message.ct)\n\n            except (TypeError", 'C04.5')
 M('C04', 'msg-finally-break', PGP, "            else:\n                del passphrase\n                break\n\n        else:\n            raise PGPDecryptionError(\"Decryption failed\")\n\n        return decmsg", "            finally:\n                break\n\n        else:\n            raise PGPDecryptionError(\"Decryption failed\")\n\n        return decmsg", 'C04.5',
   more=[(PGP, "            except (TypeError, ValueError, NotImplementedError, PGPDecryptionError):\n                continue\n\n            finally", "            except (TypeError, ValueError, NotImplementedError, PGPDecryptionError):\n                decmsg = self\n\n            finally")])
 
@@ -768,13 +736,8 @@ T('C04', 'twin-key-nested-filters', PGP, "        pkesk = next(pk for pk in mess
 M('C04', 'key-delegate-any-subkey', PGP, "                skid = list(sks & mis)[0]", "                skid = list(sks)[0]", 'C04.6')
 M('C04', 'key-delegate-union', PGP, "            if sks & mis:\n                skid = list(sks & mis)[0]", "            if sks | mis:\n                skid = list(sks | mis)[0]", 'C04.6')
 M('C04', 'key-subkey-test-dropped', PGP, "            if sks & mis:\n", "            if sks:\n", 'C04.6')
-M('C04', 'key-recipient-test-inverted', PGP, "        if self.fingerprint.keyid not in message.encrypters:\n            sks = set(self.subkeys)", "        if self.fingerprint.keyid in message.encrypters:\n            sks = set(self.subkeys)", 'C04.6')
-M('C04', 'key-recipient-test-other-collection', PGP, "        if self.fingerprint.keyid not in message.encrypters:\n            sks = set(self.subkeys)", "        if self.fingerprint.keyid not in message.signers:\n            sks = set(self.subkeys)", 'C04.6')
 M('C04', 'key-selection-or', PGP, "                     and pk.pkalg == self.key_algorithm and pk.encrypter == self.fingerprint.keyid)", "                     and (pk.pkalg == self.key_algorithm or pk.encrypter == self.fingerprint.keyid))", 'C04.6')
 M('C04', 'key-selection-no-isinstance', PGP, "        pkesk = next(pk for pk in message._sessionkeys if isinstance(pk, PKESessionKey)\n                     and pk.pkalg", "        pkesk = next(pk for pk in message._sessionkeys if pk.pkalg", 'C04.6')
-M('C04', 'key-selection-neq', PGP, "and pk.encrypter == self.fingerprint.keyid)\n        alg, key", "and pk.encrypter != self.fingerprint.keyid)\n        alg, key", 'C04.6')
-M('C04', 'key-container-args-swapped', PGP, "        decmsg.parse(message.message.decrypt(key, alg))", "        decmsg.parse(message.message.decrypt(alg, key))", 'C04.6')
-M('C04', 'key-secret-is-pubkey', PGP, "        alg, key = pkesk.decrypt_sk(self._key)", "        alg, key = pkesk.decrypt_sk(self.pubkey._key)", 'C04.6')
 M('C04', 'key-loop-select-no-else', PGP, C04_KEY_BODY, """        mine = self.fingerprint.keyid
         if mine in message.encrypters:
             for candidate in message._sessionkeys:
@@ -792,7 +755,6 @@ M('C04', 'key-loop-select-no-else', PGP, C04_KEY_BODY, """        mine = self.fi
 
         raise PGPError("Cannot decrypt the provided message with this key")
 """, 'C04.6')
-M('C04', 'key-delegate-other-message', PGP, "                return self.subkeys[skid].decrypt(message)\n\n            raise PGPError(\"Cannot decrypt", "                return self.subkeys[skid].decrypt(message.message)\n\n            raise PGPError(\"Cannot decrypt", 'C04.6')
 M('C04', 'key-fallthrough-own', PGP, "                return self.subkeys[skid].decrypt(message)\n\n            raise PGPError(\"Cannot decrypt the provided message with this key\")\n", "                return self.subkeys[skid].decrypt(message)\n", 'C04.6')
 T('C04', 'twin-seipd-helper-const', PK, """        _expected_mdcbytes = b'\\xd3\\x14' + hashlib.new('SHA1', pt[:-20]).digest()
         if not constant_time.bytes_eq(bytes(pt[-22:]), _expected_mdcbytes):
@@ -971,8 +933,6 @@ M('C04', 'msg-ref3-helper-swallows', PGP, C04_MSG_LOOP, """        decmsg = None
             pass
         return decmsg
 """, 'C04.5')
-M('C04', 'key-ref4-guard-inverted', PGP, "            if sks & mis:\n                skid = list(sks & mis)[0]\n                return self.subkeys[skid].decrypt(message)\n\n            raise PGPError(\"Cannot decrypt the provided message with this key\")\n",
-  "            shared = sks & mis\n            if shared:\n                raise PGPError(\"Cannot decrypt the provided message with this key\")\n\n            skid = list(sks)[0]\n            return self.subkeys[skid].decrypt(message)\n", 'C04.6')
 M('C04', 'key-helper-select-loose', PGP, """        pkesk = next(pk for pk in message._sessionkeys if isinstance(pk, PKESessionKey)
                      and pk.pkalg == self.key_algorithm and pk.encrypter == self.fingerprint.keyid)
 """, """        pkesk = self._own_session_key_packet(message)
@@ -1079,9 +1039,110 @@ M('C04', 'key-elif-or', PGP, """        if self.fingerprint.keyid not in message
             raise PGPError("Cannot decrypt the provided message with this key")
 """, 'C04.6')
 T('C04', 'twin-keyblob-derive-kw', FL, "        sessionkey = self.s2k.derive_key(passphrase)\n        del passphrase\n\n        # attempt to decrypt this key", "        sessionkey = self.s2k.derive_key(passphrase=passphrase)\n        del passphrase\n\n        # attempt to decrypt this key")
-M('C04', 'keyblob-derive-empty', FL, "        sessionkey = self.s2k.derive_key(passphrase)\n        del passphrase\n\n        # attempt to decrypt this key", "        sessionkey = self.s2k.derive_key('')\n        del passphrase\n\n        # attempt to decrypt this key", 'C04.4')
 T('C04', 'twin-pkesk-sum-loop', PK, "        if not sum(symkey) % 65536 == checksum:  # pragma: no cover", "        total = 0\n        for octet in symkey:\n            total += octet\n\n        if total % 65536 != checksum:  # pragma: no cover")
-M('C04', 'pkesk-sum-loop-skips-first', PK, "        if not sum(symkey) % 65536 == checksum:  # pragma: no cover", "        total = 0\n        for octet in symkey[1:]:\n            total += octet\n\n        if total % 65536 != checksum:  # pragma: no cover", 'C04.3')
+# wave-2 twin families (C04-ref6: static in-place helpers; C06-ref5: flag variable for the key blob trailer)
+T('C04', 'twin-seipd-w2-static-helpers', PK, C04_SEIPD, """        pt = _decrypt(bytes(self.ct), bytes(key), alg)
+
+        self._check_mdc(pt)
+        self._strip_prefix(pt, alg)
+
+        return pt
+
+    @staticmethod
+    def _check_mdc(pt):
+        mdc_body = hashlib.sha1(pt[:-20]).digest()
+        if not constant_time.bytes_eq(bytes(pt[-22:]), b'\\xd3\\x14' + mdc_body):
+            raise PGPDecryptionError("Decryption failed")  # pragma: no cover
+
+    @staticmethod
+    def _strip_prefix(pt, alg):
+        bs = alg.block_size // 8
+        iv = bytes(pt[:bs])
+        ivl2 = bytes(pt[bs:bs + 2])
+        del pt[:bs + 2]
+
+        if not constant_time.bytes_eq(iv[-2:], ivl2):
+            raise PGPDecryptionError("Decryption failed")  # pragma: no cover
+""")
+M('C04', 'seipd-w2-helper-mdc-only-if-present', PK, C04_SEIPD, """        pt = _decrypt(bytes(self.ct), bytes(key), alg)
+
+        self._check_mdc(pt)
+        self._strip_prefix(pt, alg)
+
+        return pt
+
+    @staticmethod
+    def _check_mdc(pt):
+        mdc_body = hashlib.sha1(pt[:-20]).digest()
+        if bytes(pt[-22:-20]) == b'\\xd3\\x14' and not constant_time.bytes_eq(bytes(pt[-20:]), mdc_body):
+            raise PGPDecryptionError("Decryption failed")  # pragma: no cover
+
+    @staticmethod
+    def _strip_prefix(pt, alg):
+        bs = alg.block_size // 8
+        iv = bytes(pt[:bs])
+        ivl2 = bytes(pt[bs:bs + 2])
+        del pt[:bs + 2]
+
+        if not constant_time.bytes_eq(iv[-2:], ivl2):
+            raise PGPDecryptionError("Decryption failed")  # pragma: no cover
+""", 'C04.1')
+T('C04', 'twin-keyblob-w2-intact-flag', FL, C04_KB, """        usage = self.s2k.usage
+        if usage == 254:
+            intact = hashlib.new('sha1', pt[:-20]).digest() == pt[-20:]
+
+        elif usage == 255:  # pragma: no cover
+            intact = sum(bytearray(pt[:-2])) % 65536 == int.from_bytes(pt[-2:], 'big')
+
+        else:  # pragma: no cover
+            intact = True
+
+        if not intact:
+            raise PGPDecryptionError("Passphrase was incorrect!")
+
+        return bytearray(pt)
+""")
+M('C04', 'keyblob-w2-intact-flag-inverted', FL, C04_KB, """        usage = self.s2k.usage
+        if usage == 254:
+            intact = hashlib.new('sha1', pt[:-20]).digest() == pt[-20:]
+
+        elif usage == 255:  # pragma: no cover
+            intact = sum(bytearray(pt[:-2])) % 65536 != int.from_bytes(pt[-2:], 'big')
+
+        else:  # pragma: no cover
+            intact = True
+
+        if not intact:
+            raise PGPDecryptionError("Passphrase was incorrect!")
+
+        return bytearray(pt)
+""", 'C04.4')
+M('C04', 'pkesk-checksum-skipped-when-zero', PK, C04_PKSK, """        cipher = SymmetricKeyAlgorithm(m[0])
+        klen = cipher.key_size // 8
+        sessionkey = m[1:1 + klen]
+        expected = int.from_bytes(m[1 + klen:3 + klen], 'big')
+        if expected and (sum(sessionkey) & 0xFFFF) != expected:
+            raise PGPDecryptionError("{:s} decryption failed".format(self.pkalg.name))
+        return cipher, sessionkey
+""", 'C04.3')
+M('C04', 'pkesk-checksum-low-octet', PK, "        checksum = self.bytes_to_int(m[:2])\n        del m[:2]\n\n        if not sum(symkey) % 65536 == checksum:", "        checksum = self.bytes_to_int(m[1:2])\n        del m[:2]\n\n        if not sum(symkey) % 256 == checksum:", 'C04.3')
+M('C04', 'pkesk-sum-loop-mod-256', PK, "        if not sum(symkey) % 65536 == checksum:  # pragma: no cover", "        total = 0\n        for octet in symkey:\n            total += octet\n\n        if total % 256 != checksum % 256:  # pragma: no cover", 'C04.3')
+M('C04', 'keyblob-nested-255-no-raise', FL, C04_KB, """        usage = self.s2k.usage
+        if usage == 254:
+            body, digest = pt[:-20], pt[-20:]
+            if digest != hashlib.sha1(body).digest():
+                raise PGPDecryptionError("Passphrase was incorrect!")
+
+        elif usage == 255:
+            if self.bytes_to_int(pt[-2:]) != sum(bytearray(pt[:-2])) % 65536:
+                warnings.warn("Passphrase was incorrect!")
+
+        return bytearray(pt)
+""", 'C04.4')
+M('C04', 'ecdh-unpad-manual', FL, C04_ECD, """        return _m[:-_m[-1]]
+""", 'C04.7')
+M('C04', 'key-selection-alg-only-when-set', PGP, "                     and pk.pkalg == self.key_algorithm and pk.encrypter == self.fingerprint.keyid)", "                     and pk.pkalg == self.key_algorithm and (not pk.encrypter or pk.encrypter == self.fingerprint.keyid))", 'C04.6')
+M('C04', 'msg-filter-hasattr', PGP, "        for skesk in iter(sk for sk in self._sessionkeys if isinstance(sk, SKESessionKey)):", "        for skesk in iter(sk for sk in self._sessionkeys if hasattr(sk, 'decrypt_sk')):", 'C04.5')
 
 # =============================================================================================== C03
 M('C03', 'checksum-65535', PK, "        m += self.int_to_bytes(sum(bytearray(symkey)) % 65536, 2)", "        m += self.int_to_bytes(sum(bytearray(symkey)) % 65535, 2)", 'C03.1')
